@@ -14,7 +14,7 @@ CHECKS = {
     ),
     "C02": dict(
         technique="Hypothesis-generated programs x answer-key subsets x six backend names against the brute-force solution set (reference model); external solvers replaced by an independent stand-in",
-        text="For each generated enumerable program and key subset the full solution set is enumerated; solve() must return True iff it is non-empty and every key's sol must be the common value or None exactly as the set dictates. Both refinement routes: cspuz' own refute-and-resolve loop (z3, sugar incl. a real subprocess) and the native deduction reply (sugar_extended, csugar, enigma_csp, cspuz_core) answered by vlib/fakesolver. A solve-count budget (|keys|+3) turns a non-terminating refinement loop into a deterministic failure. Exploration: sampled programs.",
+        text="For each generated enumerable program and key subset the full solution set is enumerated; solve() must return True iff it is non-empty and every key's sol must be the common value or None exactly as the set dictates. Both refinement routes: cspuz' own refute-and-resolve loop (z3, sugar incl. a real subprocess) and the native deduction reply (sugar_extended, csugar, enigma_csp, cspuz_core) answered by vlib/fakesolver. A generous solve-count budget (16 + 2 x the summed domain sizes of the keys) turns a non-terminating refinement loop into a deterministic failure. Exploration: sampled programs.",
         note="Trusted base: vlib/gen_expr.rev evaluator, brute-force enumeration, vlib/sexp + vlib/fakesolver as a correct external solver (cross-checked against refz3). Real Sugar/csugar/cspuz_core binaries are not available offline. 9/9 sensitivity mutants caught.",
         design_ref="3/C02",
     ),
